@@ -1,4 +1,4 @@
 SPECIFICATION XSpec
-CONSTANTS PairSrc = "file" CtxU = "falsy" MaxFlow = 0 KeyU = "six" Writ = "all"
+CONSTANTS PairSrc = "file" CtxU = "falsy" MaxFlow = 0 KeyU = "six" Writ = "all" NObj = 0
 INVARIANT EmitClasses
 CHECK_DEADLOCK FALSE
